@@ -17,6 +17,11 @@ to them, are remeshed and rebased.
                                             plus the population clauses on every dumped state (local id = position, ids of survivors unchanged and in
                                             order, a removed id never reappears, removed ⇔ volume < min_vol on the previous dump's successor).
   prove_population()                    re-checks Properties/C14Population.lean (THEOREMS_POPULATION) and rebuilds drv_c14
+  run_division(V, tier, seed, stats)    stage 2 (partial): the division ROUND of cell_divider::run inside the assembled model (Model/TissueD.lean, command `tissued`),
+                                        the two daughters of every successful divide_cell recorded by the harness (mode `dslots`: the whole list right after
+                                        cell_divider::run) and fed to the model; every end-of-iteration snapshot and every list after the divider compared bit for bit
+                                        in runs in which cells grow, divide (three generations), are remeshed and adhere; oracle: fresh ids, counter, halved target volume
+  prove_division()                      re-checks Properties/C14Division.lean (THEOREMS_DIVISION)
   replay(ctx)
 """
 import os, re, math, time, json
@@ -533,7 +538,9 @@ def replay(ctx):
     planned = [(k, list(ids)) for k, ids in inp.get("planned_removals", [])]
     V = vlib.Verdict("C14")
     stats = new_stats()
-    if inp.get("part") == "oracle":
+    if inp.get("stage") == "division":
+        correspond_division(inp.get("scenario", "replay"), cells, inp["lmin"], inp.get("overrides") or {}, inp["cell_overrides"], inp["iterations"], inp.get("seed", 0), stats, V)
+    elif inp.get("part") == "oracle":
         oracle(inp.get("scenario", "replay"), cells, inp["lmin"], inp.get("overrides") or {}, inp["cell_overrides"], planned, inp["iterations"], inp["translation"],
                inp["offset_over_size"], inp.get("seed", 0), stats, V)
     else:
